@@ -97,7 +97,7 @@ def init_worker(role):
     return {"role": role, "rows": rows, "truth": tt, "functions": sorted(it.functions_entered)}
 
 
-def check(ctx, rep: Report):
+def _check_main(ctx, rep: Report):
     res = {r["role"]: r for r in pmap(init_worker, ["own", "parent"])}
     for r in res.values():
         rep.functions |= set(r["functions"])
@@ -333,3 +333,10 @@ def check(ctx, rep: Report):
     rep.oblige("C09.NEAREST", "Attr.lookup_default_value", not bad, "; ".join(sorted(set(bad))[:1]))
     for b_ in sorted(set(bad))[:2]:
         rep.violate(Violation("C09.NEAREST", f"C09.NEAREST|{b_[:60]}", f"Attr.lookup_default_value: {b_}", f"{m_[0].module.relpath}:{fnn.lineno}", "Attr.lookup_default_value"))
+
+
+def check(ctx, rep):
+    from . import metarules, shared
+    _check_main(ctx, rep)
+    shared.own_namespace_lookups(ctx, rep, "C09.NS")
+    metarules.preparer_registration(ctx, rep, "C09.PREP")
